@@ -60,6 +60,9 @@ type Header struct {
 	Bad    bool   `json:"b,omitempty"`
 	PV     bool   `json:"pv,omitempty"` // Validate panics
 	NC     bool   `json:"nc,omitempty"` // Validate tolerates an empty chain id (as headertest.DummyHeader does)
+	// BadSig: a part of the header that Validate checks but that the HASH does not cover (as commits / signatures of real
+	// header types): Validate fails, the hash is that of the same header with a good signature.
+	BadSig bool `json:"bs,omitempty"`
 
 	mu   sync.Mutex
 	hash header.Hash
@@ -111,7 +114,7 @@ func (d *Header) Hash() header.Hash {
 	d.mu.Lock()
 	defer d.mu.Unlock()
 	if d.hash == nil {
-		b, _ := d.MarshalBinary()
+		b, _ := json.Marshal(wire{d.Chain, d.H, d.T, d.Prev, d.Salt, d.VK, d.Forged, d.Bad, d.PV, d.NC, false})
 		s := sha256.Sum256(b)
 		d.hash = s[:]
 	}
@@ -177,7 +180,7 @@ func (d *Header) Validate() error {
 	if d.PV {
 		panic("vhdr: scripted panic in Validate")
 	}
-	if d.Bad || d.H == 0 || (d.Chain == "" && !d.NC) {
+	if d.Bad || d.BadSig || d.H == 0 || (d.Chain == "" && !d.NC) {
 		return ErrInvalid
 	}
 	return nil
@@ -194,10 +197,11 @@ type wire struct {
 	Bad    bool   `json:"b,omitempty"`
 	PV     bool   `json:"pv,omitempty"`
 	NC     bool   `json:"nc,omitempty"`
+	BadSig bool   `json:"bs,omitempty"`
 }
 
 func (d *Header) MarshalBinary() ([]byte, error) {
-	return json.Marshal(wire{d.Chain, d.H, d.T, d.Prev, d.Salt, d.VK, d.Forged, d.Bad, d.PV, d.NC})
+	return json.Marshal(wire{d.Chain, d.H, d.T, d.Prev, d.Salt, d.VK, d.Forged, d.Bad, d.PV, d.NC, d.BadSig})
 }
 
 // PanicBytes makes UnmarshalBinary panic (a hostile payload hitting a decoder bug).
@@ -213,7 +217,7 @@ func (d *Header) UnmarshalBinary(b []byte) error {
 	if err := dec.Decode(&w); err != nil {
 		return err
 	}
-	d.Chain, d.H, d.T, d.Prev, d.Salt, d.VK, d.Forged, d.Bad, d.PV, d.NC = w.Chain, w.H, w.T, w.Prev, w.Salt, w.VK, w.Forged, w.Bad, w.PV, w.NC
+	d.Chain, d.H, d.T, d.Prev, d.Salt, d.VK, d.Forged, d.Bad, d.PV, d.NC, d.BadSig = w.Chain, w.H, w.T, w.Prev, w.Salt, w.VK, w.Forged, w.Bad, w.PV, w.NC, w.BadSig
 	// (the cached hash is NOT reset: like most header types, this one assumes it is decoded into a fresh value)
 	return nil
 }
